@@ -1,5 +1,6 @@
 import OrsoVerif.Model.SchemaOps
 import OrsoVerif.Lemmas.SchemaOps
+import OrsoVerif.Lemmas.SchemaFns
 /-!
 # C17 — Schema union and lookup are identity-based, ordered and non-mutating
 
@@ -477,5 +478,55 @@ example :
     r.1 = [c1, c2] ∧ removed r.2 = [c0, c3]
     ∧ r.2 = [.col (some c0), .popped (some c0), .col (some c3), .popped (some c3), .col none,
              .col (some c1), .popped none, .strs [2, 3]] := by decide
+
+/-! ## The source, translated: what `orso/schema.py` says now is the model
+
+`Gen.SchemaFns.*` are produced from the function bodies of the working tree on every run
+(`harness/pystmt.py`: assignments, `if`, early `return`, the two `for` shapes, comprehensions).  The
+theorems below prove each of them equal to the hand-written operation the other theorems are about, so
+those theorems are statements about the code as it is; a change of a function's meaning makes the
+corresponding equality stop checking (and the correspondence supplies the failing input). -/
+
+/-- `FlatColumn.all_names` -/
+theorem generated_all_names_eq_model (c : Col ι ν) : Gen.SchemaFns.all_names c = c.allNames :=
+  SchemaFnsLemmas.all_names_eq c
+
+/-- `RelationSchema.find_column` (both branches) -/
+theorem generated_find_column_eq_model (lower : ν → ν) (s : Schema ι ν) (k : ν) (ci : Bool) :
+    Gen.SchemaFns.find_column lower s k ci = find lower s.columns k ci := by
+  unfold Gen.SchemaFns.find_column find
+  simp only [SchemaFnsLemmas.all_names_eq]
+  cases ci
+  · simp only [Bool.false_eq_true, if_false, SchemaFnsLemmas.findCol_id]
+    generalize List.find? _ s.columns = o
+    cases o <;> rfl
+  · simp only [if_true, SchemaFnsLemmas.findCol_norm]
+    generalize List.find? _ s.columns = o
+    cases o <;> rfl
+
+/-- `RelationSchema.pop_column`: the removed column and the remaining column list -/
+theorem generated_pop_column_eq_model (s : Schema ι ν) (k : ν) :
+    Gen.SchemaFns.pop_column s k = popCol k s.columns := by
+  unfold Gen.SchemaFns.pop_column
+  have h := SchemaFnsLemmas.pop_shape k s.columns []
+  simp only [List.length_nil, List.nil_append] at h
+  exact h
+
+/-- `RelationSchema.__add__` -/
+theorem generated_add_eq_model (a b : Schema ι ν) : Gen.SchemaFns.add a b = union a b := by
+  unfold Gen.SchemaFns.add union
+  have h := SchemaFnsLemmas.unionLoop_eq_foldl b.columns (ids a.columns) a.columns
+  simp only [ids] at h ⊢
+  simp only [← h]
+
+/-- `column_names`, `__iter__` and `all_column_names` -/
+theorem generated_names_eq_model (s : Schema ι ν) :
+    Gen.SchemaFns.column_names s = columnNames s.columns
+    ∧ Gen.SchemaFns.iter_names s = columnNames s.columns
+    ∧ Gen.SchemaFns.all_column_names s = allColumnNames s.columns := by
+  refine ⟨rfl, rfl, ?_⟩
+  unfold Gen.SchemaFns.all_column_names
+  rw [SchemaFnsLemmas.allColumnNames_eq_flatMap]
+  simp only [SchemaFnsLemmas.all_names_eq]
 
 end C17
